@@ -1,1 +1,271 @@
-/-! # C04 — property theorems (not built yet) -/
+import PysphVerif.Lemmas.Stepper
+import PysphVerif.Gen.Timesteps
+/-!
+# C04 — the compiled integrator performs `one_timestep` exactly as written
+
+Property theorems only (helper lemmas live in `Lemmas/Stepper.lean`).  They are
+about `Model/Stepper.lean` — `step`/`runR` transcribe the class generated from
+`integrator_cython.mako`, `literalStep`/`literalRun` are the property's reading
+of the same `one_timestep` body — and about the programs in
+`Gen/Timesteps.lean`, which `translate/timestep2lean.py` re-derives from the
+`one_timestep` sources on every run.
+
+The statements hold for EVERY program in the language {initialize, stage k,
+compute_accelerations i upd, update_domain, do_post_stage e k} (not only the
+shipped ones), every assignment of steppers to arrays, every world (state type
+and the seven operations the generated code invokes, e.g. the real particle
+arrays, or the event log of the tracers), every `t`, `dt`, every number type
+(no arithmetic law is used) and every sequence of consecutive steps.
+-/
+set_option linter.unusedSectionVars false
+namespace PysphVerif.C04
+open PysphVerif.Stepper
+
+variable {σ τ : Type}
+
+/-! ## the generated class refines the literal reading -/
+
+/-- One step of the compiled integrator leaves the world in the state obtained
+by executing `one_timestep` literally: every `stageN()`/`initialize()` runs,
+per array, the Python hook and then the stepper method on exactly the
+particles whose tag is 0, with the step's `dt` and the current stage time;
+`compute_accelerations(i, upd)` refreshes neighbours iff `upd` and evaluates
+set `i` at that time; the callback gets `(t + stage_dt, dt, stage)`.
+The only hypothesis is C06's alignment invariant (real particles first),
+which is what lets the generated loop run over `range(size(real=True))`. -/
+theorem stepper_refines_literal (A : Arith τ) (W : World σ τ) (hW : WorldAligned W)
+    (cfg : Cfg) (prog : Program) (t dt : τ) (s : σ) :
+    step A W cfg prog t dt s = literalStep A W cfg prog t dt s := by
+  unfold step stepR literalStep
+  exact (fold_eq_litGo A W hW cfg t dt prog [] _ s (regsTrack_init A t dt)).1
+
+/-- The alignment hypothesis is needed: in a world whose arrays are not
+aligned the generated loop and the literal reading differ (witness: one array,
+tags `[2, 0]`, one real particle; the loop steps slot 0, a ghost). -/
+def misalignedWorld : World (List Nat) Nat where
+  hook := fun _ _ _ _ s => s
+  stepOne := fun _ _ i _ _ s => s ++ [i]
+  nReal := fun _ _ => 1
+  tags := fun _ _ => [2, 0]
+  nnpsUpdate := id
+  evalAcc := fun _ _ _ s => s
+  updateDomain := id
+  callback := fun _ _ _ s => s
+
+def natArith : Arith Nat where
+  add := (· + ·)
+  sub := (· - ·)
+  mul := (· * ·)
+  div := (· / ·)
+  neg := id
+  lit := fun n _ => n.toNat
+
+theorem alignment_is_necessary :
+    ∃ (cfg : Cfg) (prog : Program),
+      step natArith misalignedWorld cfg prog 0 0 [] ≠
+      literalStep natArith misalignedWorld cfg prog 0 0 [] := by
+  refine ⟨{ arrays := [{ name := "a", sig := { methods := [.stage 1], hooks := [] } }],
+            hasCallback := false, nEvals := 1 }, [.stage 1], ?_⟩
+  decide
+
+/-! ## which particles a stage touches -/
+
+/-- In the tracer world (any hook behaviour): a stage wrapper, for one array,
+emits the hook event (if the stepper has the hook) and then exactly the step
+events of indices `0, 1, …, nReal-1` in this order, `nReal` being read AFTER
+the hook ran; nothing else — in particular no index `≥ nReal` (the ghosts) —
+and the sizes change only through the hook. -/
+theorem stage_touches_exactly_real (grow : String → Meth → Nat) (m : Meth) (t dt : τ)
+    (s : TState τ) (a : ArrayCfg) :
+    let W := traceWorld grow
+    let s1 := if m ∈ a.sig.hooks then W.hook a.name m t dt s else s
+    wrapperDest W m t dt s a =
+      { events := s1.events ++
+          (if m ∈ a.sig.methods then
+            (List.range (W.nReal a.name s1)).map (fun i => Event.step a.name m i t dt) else []),
+        sizes := s1.sizes } := by
+  intro W s1
+  unfold wrapperDest
+  by_cases hm : m ∈ a.sig.methods
+  · simp only [hm, if_true]
+    exact loopReal_trace grow a.name m t dt _ _
+  · simp only [hm, if_false, List.append_nil]
+    rfl
+
+/-- every array that has a stepper is visited exactly once per stage call:
+the destination order is a permutation of the integrator's steppers -/
+theorem dest_order_perm (cfg : Cfg) : (destOrder cfg).Perm cfg.arrays := by
+  have hins : ∀ (a : ArrayCfg) (l : List ArrayCfg), (insertByName a l).Perm (a :: l) := by
+    intro a l
+    induction l with
+    | nil => exact List.Perm.refl _
+    | cons b bs ih =>
+      unfold insertByName
+      split
+      · exact (List.Perm.cons b ih).trans (List.Perm.swap a b bs)
+      · exact List.Perm.refl _
+  unfold destOrder
+  induction cfg.arrays with
+  | nil => exact List.Perm.refl _
+  | cons a as ih => exact (hins a _).trans (List.Perm.cons a ih)
+
+/-! ## the time a stage sees -/
+
+/-- After any prefix `done` of the pasted body the registers of the compiled
+object are: `orig_t = t`, `dt = dt`, and `t` = the argument of the last
+`do_post_stage` executed (`t + stage_dt`), or the step's `t` if there was none.
+Every stage wrapper, hook and evaluator reads `self.t`, `self.dt`. -/
+theorem stage_time_is_last_post_stage (A : Arith τ) (W : World σ τ) (cfg : Cfg)
+    (t dt : τ) (done : List Cmd) (s : σ) :
+    let r := (done.foldl (execCmd A W cfg t dt) ({ origT := t, t := t, dt := dt }, s)).1
+    r.origT = t ∧ r.dt = dt ∧ r.t = stageTime A done t dt := by
+  intro r
+  -- the register part of `execCmd` does not look at the world
+  have key : ∀ (rest done0 : List Cmd) (r0 : Regs τ) (s0 : σ), RegsTrack A done0 t dt r0 →
+      RegsTrack A (done0 ++ rest) t dt (rest.foldl (execCmd A W cfg t dt) (r0, s0)).1 := by
+    intro rest
+    induction rest with
+    | nil => intro done0 r0 s0 h; simpa using h
+    | cons c cs ih =>
+      intro done0 r0 s0 h
+      obtain ⟨h1, h2, h3⟩ := h
+      have hstep : RegsTrack A (done0 ++ [c]) t dt (execCmd A W cfg t dt (r0, s0) c).1 := by
+        rcases c with _ | k | ⟨i, upd⟩ | _ | ⟨e, k⟩
+        · exact ⟨h1, h2, by
+            rw [stageTime_snoc_other A done0 _ t dt (by intro e k h; cases h)]; exact h3⟩
+        · exact ⟨h1, h2, by
+            rw [stageTime_snoc_other A done0 _ t dt (by intro e k h; cases h)]; exact h3⟩
+        · exact ⟨h1, h2, by
+            rw [stageTime_snoc_other A done0 _ t dt (by intro e k h; cases h)]; exact h3⟩
+        · exact ⟨h1, h2, by
+            rw [stageTime_snoc_other A done0 _ t dt (by intro e k h; cases h)]; exact h3⟩
+        · refine ⟨h1, h2, ?_⟩
+          simp only [execCmd, h1]
+          rw [stageTime_snoc_post]
+      have := ih (done0 ++ [c]) _ (execCmd A W cfg t dt (r0, s0) c).2 hstep
+      simpa [List.append_assoc] using this
+  have h := key done [] _ s (regsTrack_init A t dt)
+  rw [List.nil_append] at h
+  exact h
+
+/-- nothing leaks from one step into the next: whatever the registers held
+(the previous step's `orig_t, t, dt`), `step(t, dt)` overwrites them first -/
+theorem step_ignores_stale_registers (A : Arith τ) (W : World σ τ) (cfg : Cfg)
+    (prog : Program) (t dt : τ) (r1 r2 : Regs τ) (s : σ) :
+    stepR A W cfg prog t dt (r1, s) = stepR A W cfg prog t dt (r2, s) := rfl
+
+/-! ## several consecutive steps -/
+
+/-- `k` consecutive steps on one compiled object are the fold of single steps,
+each of which is the literal execution: for every history `(t₁,dt₁), …` the
+final state is `literalRun`. -/
+theorem multi_step_compose (A : Arith τ) (W : World σ τ) (hW : WorldAligned W)
+    (cfg : Cfg) (prog : Program) (steps : List (τ × τ)) (r : Regs τ) (s : σ) :
+    (runR A W cfg prog steps (r, s)).2 = literalRun A W cfg prog steps s := by
+  unfold runR literalRun
+  induction steps generalizing r s with
+  | nil => rfl
+  | cons x xs ih =>
+    simp only [List.foldl_cons]
+    have h1 : (runStepR A W cfg prog (r, s) x).2 = literalStep A W cfg prog x.1 x.2 s := by
+      have := stepper_refines_literal A W hW cfg prog x.1 x.2 s
+      unfold step at this
+      exact this
+    rw [← h1]
+    exact ih _ _
+
+theorem run_append (A : Arith τ) (W : World σ τ) (cfg : Cfg) (prog : Program)
+    (xs ys : List (τ × τ)) (st : Regs τ × σ) :
+    runR A W cfg prog (xs ++ ys) st = runR A W cfg prog ys (runR A W cfg prog xs st) := by
+  simp [runR, List.foldl_append]
+
+/-! ## the trace, in closed form -/
+
+/-- With tracer steppers whose hooks leave the sizes alone, the event log of
+one step is, statement by statement, `cmdEvents` at the stage time determined
+by the statements before it (`specEvents`): nothing is reordered, dropped or
+repeated. -/
+theorem trace_closed_form (A : Arith τ) (cfg : Cfg) (prog : Program) (t dt : τ)
+    (s : TState τ) :
+    step A staticWorld cfg prog t dt s =
+      { events := s.events ++ specEvents A cfg s.sizes prog t dt, sizes := s.sizes } := by
+  rw [stepper_refines_literal A staticWorld (traceWorld_aligned _)]
+  exact litGo_static A cfg t dt prog [] s
+
+/-- The post-stage callback fires exactly once per `do_post_stage` statement,
+in program order, with arguments `(t + stage_dt, dt, stage)`; never when no
+callback is set. -/
+theorem callback_once_per_stage (A : Arith τ) (cfg : Cfg) (prog : Program) (t dt : τ)
+    (s : TState τ) (hs : s.events = []) :
+    callbacksOf (step A staticWorld cfg prog t dt s).events =
+      if cfg.hasCallback then
+        (posts prog).map (fun x => (A.add t (x.1.eval A t dt), dt, x.2))
+      else [] := by
+  rw [trace_closed_form, hs, List.nil_append]
+  exact callbacksOf_specGo A cfg s.sizes t dt prog []
+
+/-! ## the shipped integrators (table regenerated from the source) -/
+
+/-- stage / post-stage statements of a program, in order -/
+def stagePosts (p : Program) : List Cmd :=
+  p.filter (fun c => match c with
+    | .stage _ => true
+    | .doPostStage _ _ => true
+    | _ => false)
+
+/-- `stage k, do_post_stage(e, k), stage k+1, do_post_stage(e', k+1), …`, the
+last `stage_dt` being the whole `dt` -/
+def wellStagedFrom : Nat → List Cmd → Bool
+  | _, [] => true
+  | k, .stage j :: .doPostStage e j' :: rest =>
+    j == k && j' == k && (if rest.isEmpty then e == Expr.dt else true) &&
+      wellStagedFrom (k + 1) rest
+  | _, _ => false
+
+def wellStaged (p : Program) : Bool := wellStagedFrom 1 (stagePosts p)
+
+/-- Every `one_timestep` in the tree calls its stages in order 1..n, reports
+each with exactly one `do_post_stage(_, k)` before the next stage, and ends
+the step at `t + dt`.  (Re-checked against the regenerated table on every run;
+an integrator that skips or duplicates a post-stage call breaks this.) -/
+theorem shipped_programs_well_staged :
+    ∀ x ∈ Gen.Timesteps.programs, wellStaged x.2.2 = true := by
+  decide
+
+/-- every shipped program only evaluates sets 0 or 1 and its last statement
+group leaves the registers at `t + dt` -/
+theorem shipped_programs_end_at_t_plus_dt (A : Arith τ) (t dt : τ) :
+    ∀ x ∈ Gen.Timesteps.programs, stageTime A x.2.2 t dt = A.add t dt := by
+  intro x hx
+  simp only [Gen.Timesteps.programs, List.mem_cons, List.mem_nil_iff, or_false] at hx
+  rcases hx with h | h | h | h | h | h | h | h | h | h | h | h | h | h | h | h <;>
+    subst h <;> rfl
+
+/-! ## non-vacuity -/
+
+/-- a concrete run: PEC integrator, two arrays (keyword order `b, a`), `b`
+with a `py_stage1` hook, callback set -/
+def exCfg : Cfg :=
+  { arrays := [{ name := "b", sig := { methods := [.initialize, .stage 1, .stage 2],
+                                       hooks := [.stage 1] } },
+               { name := "a", sig := { methods := [.stage 1, .stage 2], hooks := [] } }],
+    hasCallback := true, nEvals := 1 }
+
+def exState : TState Rat := { events := [], sizes := [("b", 2, 1), ("a", 1, 2)] }
+
+example : wellFormed exCfg Gen.Timesteps.prog_pysph_sph_integrator_PECIntegrator = true := by
+  decide
+
+example :
+    callbacksOf (step Arith.rat staticWorld exCfg
+      Gen.Timesteps.prog_pysph_sph_integrator_PECIntegrator 1 (1/4) exState).events =
+      [((9 : Rat)/8, (1 : Rat)/4, 1), ((5 : Rat)/4, (1 : Rat)/4, 2)] := by
+  decide +kernel
+
+example : (step Arith.rat staticWorld exCfg
+      Gen.Timesteps.prog_pysph_sph_integrator_PECIntegrator 1 (1/4) exState).events.length = 15 := by
+  decide +kernel
+
+example : WorldAligned (traceWorld (τ := Rat) (fun _ _ => 1)) := traceWorld_aligned _
+
+end PysphVerif.C04
